@@ -58,10 +58,19 @@ def _msg(task, text, sn=1):
     return {'op': 'msg', 'task': task, 'msg': text, 'sn': sn, 'sev': 'CRITICAL' if text == 'failed' else 'INFO'}
 
 
-def _case(cid, flow, offsets, now0, ops, kind='exp', restarts=0):
-    return {'id': cid, 'flow': flow, 'seed': 0, 'opts': {}, 'policy': {'outcomes': {}, 'restarts': restarts},
+def _case(cid, flow, offsets, now0, ops, kind='exp', restarts=0, judge_only=False, variants=None):
+    case = {'id': cid, 'flow': flow, 'seed': 0, 'opts': {}, 'policy': {'outcomes': {}, 'restarts': restarts},
             'ops': ops, 'kind': kind, 'dt': {'now0': now0, 'unit': 3600},
             'spec_exp': {'offsets': offsets, 'unit': 3600}}
+    if judge_only:
+        case['judge_only'] = True
+    if variants:
+        case['spec_exp']['variants'] = variants
+    return case
+
+
+def _reload(flow, tag, inloop=False):
+    return {'op': 'reload', 'flow': flow, 'tag': tag, 'inloop': inloop}
 
 
 _RETRY = '    [[a]]\n        execution retry delays = 2*PT0S\n'
@@ -71,6 +80,13 @@ _ABC = _flow('20000101T0300Z', 'a(PT1H)', [('PT1H', ['a:expire? => b', 'a => c']
 _KEEP = _flow('20000101T0100Z', 'a(PT1H)', [('R1', ['a => c'])], _RETRY)
 # a and b both due; the expiry of a removes b by suicide trigger before the loop reaches b
 _GHOST = _flow('20000101T0100Z', 'a(PT0M), b(PT0M)', [('R1', ['a:expire? => !b', 'b', 'a:expire? => c'])])
+
+# one slot in the default queue; 1/y waits for 1/a and 1/w, 1/z and 1/y are clock-expire tasks (expiry 02:00)
+_QUEUE = _flow('20000101T0100Z', 'y(PT1H), z(PT1H)', [('R1', ['a & w => y', 'z'])]).replace(
+    '    [[special tasks]]\n', '    [[queues]]\n        [[[default]]]\n            limit = 1\n    [[special tasks]]\n')
+# 1/x (held, so that it stays waiting) with a clock-expire offset that a reload lengthens from PT1H to PT3H
+_RL1 = _flow('20000101T0100Z', 'x(PT1H)', [('R1', ['x'])])
+_RL3 = _flow('20000101T0100Z', 'x(PT3H)', [('R1', ['x'])])
 
 _CORPUS = [
     # the clock passes the expiry time of 1/a exactly (tick to 02:00): it expires, b is spawned with its
@@ -92,6 +108,22 @@ _CORPUS = [
     # expired (incomplete) task across a stop + restart
     _case('c32-restart', _KEEP, {'a': 3600}, 9000,
           [_L, _cmd('stop', mode='REQUEST(NOW)'), _L, _R, _L, _tick(600), _L], kind='expcmd', restarts=1),
+    # (judged on the real trace only) 1/a runs and finishes, 1/w takes the only queue slot and keeps it; 1/y (spawned
+    # by 1/a, not queued) is triggered: the full queue can only queue it; the clock passes the expiry time of 1/y
+    # and 1/z: 1/z expires, the triggered 1/y does not, and runs when 1/w has finished
+    _case('c32-trigger-queued-by-limit', _QUEUE, {'y': 3600, 'z': 3600}, 3600,
+          [_L, _sub('1/a'), _msg('1/a', 'started'), _msg('1/a', 'succeeded'), _L, _L, _sub('1/w'),
+           _msg('1/w', 'started'), _L, _trig('1/y'), _L, _tick(7200), _L, _L, _msg('1/w', 'succeeded'), _L, _L, _L],
+          kind='expq', judge_only=True),
+    # (judged on the real trace only) the offset of the pooled, waiting 1/x is lengthened by a reload: it must not
+    # expire at the old time (02:00), only at the new one (04:00)
+    _case('c32-reload-lengthens-offset', _RL1, {'x': 3600}, 3600,
+          [_cmd('hold', tasks=['1/x']), _L, _reload(_RL3, 'long'), _L, _tick(5400), _L, _L, _tick(5400), _L, _L],
+          kind='exprl', judge_only=True, variants={'same': {'x': 3600}, 'long': {'x': 10800}}),
+    # ... and shortened while the old time is still ahead: it expires at the new time
+    _case('c32-reload-shortens-offset', _RL3, {'x': 10800}, 3600,
+          [_cmd('hold', tasks=['1/x']), _L, _tick(1800), _reload(_RL1, 'short', inloop=True), _L, _tick(1800), _L, _L],
+          kind='exprl', judge_only=True, variants={'short': {'x': 3600}}),
 ]
 
 # the witness of the recorded finding (also the probe of translate()): a job message `expired` from a running task
@@ -186,8 +218,8 @@ class C32(SchedProp):
             'messages, held tasks, expiry of an object removed earlier in the same loop, restart) and the witness of the '
             'recorded finding run first; non-trivial = at least one task expired or a due task was protected by a manual '
             'trigger; classes = (kind, number of expiries, features of the expiries)')
-    kinds = ('exp', 'expany', 'expcmd', 'exptrig')
-    n_quick = 64
+    kinds = ('exp', 'expany', 'expcmd', 'exptrig', 'expq', 'exprl')
+    n_quick = 78
     n_thorough = 800
 
     def setup(self):
@@ -232,9 +264,22 @@ class C32(SchedProp):
     def driver_input(self, inp, raw):
         d = super().driver_input(inp, raw)
         if 'crash' not in d:
-            # the expiry offsets and the start time come from the generated case, not from the scheduler
+            # the expiry offsets (of the start-up definition and of every reload variant) and the start time come from
+            # the generated case, not from the scheduler
             d['spec'] = inp.get('spec_exp')
             d['dt'] = inp.get('dt')
+            if inp.get('judge_only'):
+                # limited queues / reload: outside the Sched3Exp model, judged on the real trace only
+                d['judge_only'] = True
+        return d
+
+    def equal(self, model_out, obs):
+        if model_out == {'judge_only': True}:
+            return True
+        return super().equal(model_out, obs)
+
+    def _replay_input(self, inp, driver_inp):
+        d = super()._replay_input(inp, driver_inp)
         return d
 
     def classify(self, inp, obs):
@@ -257,8 +302,17 @@ class C32(SchedProp):
                            ('transient', lambda e: e['tr'])):
             if any(test(e) for e in evs):
                 tags.append(name)
-        if any(o.get('op') == 'restart' for o in (inp.get('ops') or [])):
+        ops = inp.get('ops') or []
+        if any(o.get('op') == 'restart' for o in ops):
             tags.append('restart')
+        if inp.get('judge_only'):
+            tags.append('judged-only')
+        # a manually triggered task that sits in a queue (the trigger could only queue it)
+        if any(set(map(tuple, ob.get('man', []))) & {(t['p'], t['n']) for t in ob['pool'] if t['q']} for ob in obs):
+            tags.append('manual-queued')
+        if any(o.get('op') == 'reload' and not o.get('skipped') and not o.get('failed') and o.get('tag') != 'same'
+               for o in ops):
+            tags.append('offsets-reloaded')
         return '/'.join(tags)
 
 
